@@ -42,6 +42,7 @@ int main(void) {
         else if (!strcmp(ops_tok[1], "pass")) r = hex_field(ops_tok[2], supla_esp_cfg.Password, SUPLA_LOCATION_PWD_MAXSIZE);
         else if (!strcmp(ops_tok[1], "prefix")) r = hex_field(ops_tok[2], supla_esp_cfg.MqttTopicPrefix, MQTT_PREFIX_SIZE);
         else if (!strcmp(ops_tok[1], "flags")) supla_esp_cfg.Flags = (unsigned)strtoul(ops_tok[2], 0, 10);
+        else if (!strcmp(ops_tok[1], "qos")) supla_esp_cfg.MqttQoS = (char)atoi(ops_tok[2]);
         else r = -1;
         if (r < 0) sdk_out("BADOP");
       } else if (!strcmp(op, "start")) {
